@@ -169,8 +169,8 @@ JUDGES = {"lib": judge_lib, "cli": judge_cli}
 
 def shards(tier, seed):
     T = tier == "thorough"
-    return [{"name": "lib-%d" % i, "count": 2500 if T else 150} for i in range(6)] + \
-           [{"name": "cli-%d" % i, "count": 400 if T else 45, "first": i == 0} for i in range(16)]
+    return [{"name": "lib-%d" % i, "count": 4000 if T else 350} for i in range(6)] + \
+           [{"name": "cli-%d" % i, "count": 700 if T else 80, "first": i == 0} for i in range(16)]
 
 
 def _tx_with_chain(rng, c, kind=None):
